@@ -18,6 +18,7 @@ type region struct {
 	lo, hi T          // elem: absolute index range [lo,hi)
 	ref    T          // obj: object reference
 	all    bool       // every location of heaps with this root/prefix (used for "anything reachable")
+	cell   *Cell      // a local variable of the caller reached through a pointer argument
 }
 
 func (fx *FuncVC) calleeVal(fr *frame, c *ssa.CallCommon) Val {
@@ -146,6 +147,12 @@ func (fx *FuncVC) modularCall(fn *ssa.Function, spec *FuncSpec, spkg *PkgInfo, a
 	}
 	if !spec.Pure {
 		fx.havocHeaps(heaps, regions, pre, "call")
+		for _, rg := range regions {
+			if rg.cell != nil {
+				// the callee may assign the caller's variable it was given a pointer to
+				fx.storePtr(PtrV{Kind: pkCell, Cell: rg.cell, Root: rg.cell.Typ}, fx.freshVal(rg.cell.Typ, rg.cell.Name))
+			}
+		}
 		na := fx.fresh("alloc", SInt)
 		fx.assume(Le(fx.st.alloc, na, true))
 		fx.st.alloc = na
@@ -283,6 +290,9 @@ func (fx *FuncVC) evalRegion(env *Env, e Expr, c *Clause) (out []region) {
 	case *Unary:
 		if x.Op == "*" {
 			p, ok := env.eval(x.X).(PtrV)
+			if ok && p.Kind == pkCell && len(p.Path) == 0 {
+				return []region{{cell: p.Cell}}
+			}
 			if !ok || p.Kind != pkHeap {
 				cfail("modifies *%s: not a heap pointer", ExprString(x.X))
 			}
@@ -319,6 +329,9 @@ func (fx *FuncVC) evalRegion(env *Env, e Expr, c *Clause) (out []region) {
 				prefix, _ := leafPathPrefix(v.Root, v.Path)
 				return []region{{root: v.Root, prefix: prefix, ref: v.Ref}}
 			}
+			if v.Kind == pkCell && len(v.Path) == 0 {
+				return []region{{cell: v.Cell}}
+			}
 		}
 	case *CallE:
 		if x.Fun == "fields" && len(x.Args) == 2 { // fields(T, f): field f of every object of type T (coarse frame)
@@ -352,6 +365,9 @@ func (fx *FuncVC) evalRegion(env *Env, e Expr, c *Clause) (out []region) {
 
 // heapsOfRegion adds the heap names a region covers.
 func (fx *FuncVC) heapsOfRegion(rg region, out map[string]Sort) {
+	if rg.cell != nil {
+		return
+	}
 	if rg.elem {
 		for _, l := range fx.leavesOf(rg.root) {
 			out[elemHeapName(rg.root, l.Path)] = fx.heapSortElem(l.Sort)
@@ -407,7 +423,7 @@ func (fx *FuncVC) heapsReachable(t types.Type, out map[string]Sort, seen map[str
 func (fx *FuncVC) inRegionsElem(name string, regions []region, b, j T) T {
 	var cs []T
 	for _, rg := range regions {
-		if !rg.elem {
+		if !rg.elem || rg.cell != nil {
 			continue
 		}
 		covers := false
@@ -430,7 +446,7 @@ func (fx *FuncVC) inRegionsElem(name string, regions []region, b, j T) T {
 func (fx *FuncVC) inRegionsObj(name string, regions []region, r T) T {
 	var cs []T
 	for _, rg := range regions {
-		if rg.elem {
+		if rg.elem || rg.cell != nil {
 			continue
 		}
 		covers := false
@@ -488,7 +504,7 @@ func (fx *FuncVC) frameAxiom(name string, old, nh T, regions []region, allocBefo
 		} else {
 			var bases []T
 			for _, rg := range regions {
-				if rg.elem && !rg.all {
+				if rg.elem && !rg.all && rg.cell == nil {
 					for _, l := range fx.leavesOf(rg.root) {
 						if elemHeapName(rg.root, l.Path) == name {
 							bases = append(bases, rg.base)
@@ -520,7 +536,7 @@ func (fx *FuncVC) frameAxiom(name string, old, nh T, regions []region, allocBefo
 
 func hasRegionFor(fx *FuncVC, name string, regions []region) bool {
 	for _, rg := range regions {
-		if !rg.elem {
+		if !rg.elem || rg.cell != nil {
 			continue
 		}
 		for _, l := range fx.leavesOf(rg.root) {
@@ -574,6 +590,12 @@ func (fx *FuncVC) frameRegions() []region { return fx.regions }
 // opaqueCall models a call whose effect is unknown but which cannot touch memory we reason about:
 // the result is fresh. Only used for whitelisted pure library functions.
 func (fx *FuncVC) opaqueCall(fr *frame, c *ssa.CallCommon, pos token.Pos, instr ssa.Value, why string) Val {
+	// error.Error(): an arbitrary string, no effect on memory (the convention every error type follows)
+	if c.IsInvoke() && c.Method.Name() == "Error" && c.Signature().Params().Len() == 0 && c.Signature().Results().Len() == 1 &&
+		isString(c.Signature().Results().At(0).Type()) {
+		fx.note("error.Error() treated as returning an arbitrary string without side effects")
+		return fx.freshVal(types.Typ[types.String], "errmsg")
+	}
 	panic(unsupported("call through %s", why))
 }
 
